@@ -23,7 +23,9 @@ VERIF = os.path.dirname(os.path.dirname(os.path.abspath(__file__)))
 REPO = os.environ.get("VERIF_REPO", "/repo")
 REPLAY_PY = os.environ.get("VERIF_REPLAY_PY", "/venv/bin/python")
 OUT = os.path.join(VERIF, "out")
-EVIDENCE_DIR = os.path.join(VERIF, "evidence")
+# evidence/ only ever describes runs against /repo itself; runs against a scratch copy (seeded changes, patch checks) write elsewhere
+EVIDENCE_DIR = os.environ.get("VERIF_EVIDENCE_DIR") or (
+    os.path.join(VERIF, "evidence") if os.path.realpath(REPO) == "/repo" else os.path.join(VERIF, "out", "evidence-scratch"))
 KNOWN_FINDINGS = os.path.join(VERIF, "known_findings.txt")
 
 EXIT_OK, EXIT_VIOLATION, EXIT_UNDECIDED, EXIT_CRASH = 0, 1, 2, 3
